@@ -92,11 +92,45 @@ def stale_prelude(data, hist):
     return True
 
 
+def manual_mid_prelude(data, hist):
+    """Skip-queue mode: a commit is pushed by hand on a non-last integration
+    branch (the documented way to repair one), CI reports green on every
+    current tip (the later integration branches do not contain the repair
+    yet), then the pull request is evaluated."""
+    w = hist.world
+    chain = [n for n in w.chain if n in w.heads()]
+    if len(chain) < 3:
+        return False
+    i = data.draw(st.integers(0, len(chain) - 3), label='mm_first')
+    hist.apply({'op': 'open_pr', 'src': 'bugfix/TEST-1-m1', 'dst': chain[i],
+                'author': AUTHOR, 'base_back': 0})
+    if not w.prs:
+        return False
+    p1 = max(w.prs)
+    hist.apply({'op': 'pr_event', 'pr': p1})
+    if data.draw(st.integers(0, 1), label='mm_red_first'):
+        hist.apply({'op': 'report_pr', 'pr': p1, 'state': 'FAILED'})
+        hist.apply({'op': 'pr_event', 'pr': p1})
+    nw = len(chain) - i - 1          # integration branches of the PR
+    hist.apply({'op': 'manual', 'pr': p1, 'kind': 'commit',
+                'w': data.draw(st.integers(0, max(0, nw - 1)),
+                               label='mm_w')})
+    for u in (PEER1, PEER2, AUTHOR):
+        hist.apply({'op': 'approve', 'pr': p1, 'user': u})
+    hist.apply({'op': 'report_pr', 'pr': p1, 'state': 'SUCCESSFUL'})
+    hist.apply({'op': 'pr_event', 'pr': p1})
+    hist.apply({'op': 'pr_event', 'pr': p1})
+    hist.flags.add('c03_manual_mid_prelude')
+    return True
+
+
 def prelude(data, hist, evaluate=True):
     w = hist.world
-    if evaluate and w.mode == 'skipqueue' and data.draw(
-            st.integers(0, 1), label='stale_prelude'):
-        if stale_prelude(data, hist):
+    if evaluate and w.mode == 'skipqueue':
+        which = data.draw(st.integers(0, 2), label='stale_prelude')
+        if which == 1 and stale_prelude(data, hist):
+            return
+        if which == 2 and manual_mid_prelude(data, hist):
             return
     dests = sorted(n for n in w.heads() if is_dest(n))
     k = data.draw(st.integers(1, 4), label='k')
